@@ -237,7 +237,7 @@ def RTOK : Field → GoVal → Prop
       vkindOf info.tf.valueType = .list ∧ vkindOf info.tf.elemValueType = .obj ∧
         ∀ e ∈ sliceElems (getVal info obj), MsgTyped info.isNullable (fun s => RTOKs sub s) e
     | .primitiveMap =>
-      vkindOf info.tf.valueType = .map ∧ info.isPlaceholder = false ∧ info.isNullable = false ∧
+      vkindOf info.tf.valueType = .map ∧ info.isPlaceholder = false ∧
         (mapVal.getD info).tf.elemValueType = info.tf.elemValueType ∧
         ((mapElems (getVal info obj)).map (·.1)).Nodup ∧
         ∃ k, PrimRT info k ∧ ∀ e ∈ mapElems (getVal info obj), PrimVal info e.2
@@ -761,7 +761,7 @@ theorem fromField_reads (ov : List (String × String)) : ∀ (f : Field) (obj : 
         (Or.inr hk) ho he hvt hT hl hr
     | primitiveMap =>
       simp only [hk] at hok hr ⊢
-      obtain ⟨hvt, _, hnn, hev, hnd, k, hrt, hT⟩ := hok
+      obtain ⟨hvt, _, hev, hnd, k, hrt, hT⟩ := hok
       have hb := elemReads_prim (fun as s => copyFromFields ov sub as { s with obj := resetOneOfs ((msg.map (·.oneOfNames)).getD []) s.obj })
         ov info (mv.getD info) k hrt (by rw [hev]; exact hrt.ek) (Or.inr hk)
       exact fieldWith_map _ ov info mv msg attrs st a _ _ _ _ hb (Or.inl hk) ho he hvt hnd hT hl hr
